@@ -4,6 +4,7 @@ import (
 	"fmt"
 	"math"
 	"net"
+	"sync"
 
 	"github.com/xiam/to"
 )
@@ -35,6 +36,9 @@ type Characteristic struct {
 	connValueUpdateFuncs []ConnChangeFunc
 	valueChangeFuncs     []ChangeFunc
 	valueGetFunc         GetFunc
+
+	// synchronizes updates of the value
+	valueMutex sync.Mutex
 }
 
 // NewCharacteristic returns a characteristic
@@ -130,18 +134,32 @@ func (c *Characteristic) updateValue(value interface{}, conn net.Conn, checkPerm
 		value = c.clampInt(value.(int))
 	}
 
-	if c.Value == value && !c.updateOnSameValue {
-		return
+	// The value is compared and stored in one step. Otherwise two updates with the same
+	// value at the same time (from two connections) are both taken for a change.
+	update := func() (bool, interface{}) {
+		c.valueMutex.Lock()
+		defer c.valueMutex.Unlock()
+
+		if c.Value == value && !c.updateOnSameValue {
+			return false, nil
+		}
+
+		// Ignore new values from remote when permissions don't allow write and checkPerms is true
+		if checkPerms && !c.IsWritable() {
+			return false, nil
+		}
+
+		old := c.Value
+		if c.IsReadable() {
+			c.Value = value
+		}
+
+		return true, old
 	}
 
-	// Ignore new values from remote when permissions don't allow write and checkPerms is true
-	if checkPerms && !c.IsWritable() {
+	changed, old := update()
+	if !changed {
 		return
-	}
-
-	old := c.Value
-	if c.IsReadable() {
-		c.Value = value
 	}
 
 	if conn != nil {
